@@ -81,9 +81,44 @@ def propagateMissing (marks : List String) (included : String → Bool) (before 
             g.anchors.any (fun o => o.name.startsWith ba.name) ||
             g'.anchors.any (fun a => nameMatches a.name ba.name)))))).map (·.1)
 
+/-- mark-ligature promotion: an included composite with a ligature name (`a_b`, not starting with `_`) all of whose
+    (existing) components are mark glyphs must be treated as if the component whose bounds' lower-left corner is closest to
+    the origin were its base: SOME component `k` of minimal squared distance (`bnd` = the corner of each component) exists
+    such that every anchor of `k`'s base is there (own anchor with that prefix, or propagated under that name) and every
+    added anchor bears the name of an anchor of `k`'s base — the other components stay marks and contribute no names. -/
+def promotionWrong (bnd : Comp → Option (Q × Q)) (marks : List String) (included : String → Bool)
+    (before after : GlyphSet) : List String :=
+  (after.filter (fun (n, g') =>
+    match before.get? n with
+    | none => false
+    | some g =>
+      included n && !g.comps.isEmpty && !(marks.contains n && !g.anchors.isEmpty) && isLigatureMark n &&
+      g'.comps.any (fun k => (after.get? k.base).isSome) &&
+      g'.comps.all (fun k => match after.get? k.base with
+        | some b => b.anchors.any (fun a => a.name.startsWith "_")
+        | none => true) &&
+      !(g'.comps.any (fun k =>
+        match after.get? k.base, bnd k with
+        | some b, some p =>
+          g'.comps.all (fun k' => match after.get? k'.base, bnd k' with
+            | some _, some p' => decide (dist2 p ≤ dist2 p')
+            | some _, none => false
+            | none, _ => true) &&
+          b.anchors.all (fun ba =>
+            g.anchors.any (fun o => o.name.startsWith ba.name) ||
+            g'.anchors.any (fun a => nameMatches a.name ba.name)) &&
+          (g'.anchors.drop g.anchors.length).all (fun a => b.anchors.any (fun ba => nameMatches a.name ba.name))
+        | _, _ => false)))).map (·.1)
+
 def holdsPropagate (marks : List String) (included : String → Bool) (before after : GlyphSet)
     (secondModified : List String) (secondSame : Bool) : Bool :=
   (propagateWrong before after).isEmpty && (propagateMissing marks included before after).isEmpty &&
   after.names == before.names && secondModified.isEmpty && secondSame
+
+/-- the whole predicate, the promotion clause included -/
+def holdsPropagateP (bnd : Comp → Option (Q × Q)) (marks : List String) (included : String → Bool)
+    (before after : GlyphSet) (secondModified : List String) (secondSame : Bool) : Bool :=
+  holdsPropagate marks included before after secondModified secondSame &&
+  (promotionWrong bnd marks included before after).isEmpty
 
 end Ufo2ft.C15
